@@ -33,7 +33,7 @@ def run(tier, seed):
     wd = vf.scratch()
     x = vf.model_check(wd, "Reset.tla", "MC_Reset_quick.cfg", "X Reset")
     vf.must_violate(wd, "Reset.tla", "MC_Reset_asfound.cfg", "Reset")
-    base = c01.generate(wd, quick, seed, 120 if quick else 3000)
+    base = c01.generate(wd, quick, seed, 120 if quick else 1500)
     scenarios = []
     for s in base:
         other = rnd.choice(base)
@@ -56,7 +56,7 @@ def run(tier, seed):
             h = [dict(o, op="wrg") if o["op"] == "write" and k % 2 == 0 else o for k, o in enumerate(h)]
         scenarios.append({"id": len(scenarios) + 1, "cfg": cfg, "prior": prior, "h": h, "failAt": fail})
     # a few of them at scale (large dictionaries that outgrow their pooled storage, many pages): see c01
-    for s in rnd.sample(scenarios, 4 if quick else 60):
+    for s in rnd.sample(scenarios, 4 if quick else 30):
         total = sum(o.get("n", 0) for o in s["h"])
         if total:
             k = max(2, (7000 if quick else 12000) // total)
@@ -64,8 +64,8 @@ def run(tier, seed):
     vf.log(f"[C17] X: {x.distinct} states; scenarios {len(scenarios)}")
 
     # both builds run every scenario; the monitor joins them by scenario key
-    tp1 = vf.execute(vh, "c17", wd, scenarios, seed, "default", extra=["--build", "default"])
-    tp2 = vf.execute(vh_pure, "c17", wd, scenarios, seed, "purego", extra=["--build", "purego"])
+    tp1 = vf.execute(vh, "c17", wd, scenarios, seed, "default", extra=["--build", "default"], timeout=7200)
+    tp2 = vf.execute(vh_pure, "c17", wd, scenarios, seed, "purego", extra=["--build", "purego"], timeout=7200)
     joined = wd + "/joined.trace.ndjson"
     n1 = sum(1 for _ in open(tp1))
     import json
